@@ -233,12 +233,20 @@ class CommandLine(object):
         )
 
     def main(self):
+        # main() may be called more than once in one process, and by code that
+        # goes on using the API afterwards: the exit status must reflect this
+        # run only and the caller's strict mode must be put back
+        strict = errors.strict
+        errors.error_code = 0
         errors.set_strict_mode(False)
-        argv = self.recognize_legacy_optons(sys.argv[1:])
-        options, args = self.opt_parser.parse_args(argv)
-        if len(args) != self.num_args:
-            self.opt_parser.print_help()
-            sys.exit(1)
-        kwargs = self._extract_kwargs(options)
-        self.run(*args, **kwargs)
-        sys.exit(errors.error_code)
+        try:
+            argv = self.recognize_legacy_optons(sys.argv[1:])
+            options, args = self.opt_parser.parse_args(argv)
+            if len(args) != self.num_args:
+                self.opt_parser.print_help()
+                sys.exit(1)
+            kwargs = self._extract_kwargs(options)
+            self.run(*args, **kwargs)
+            sys.exit(errors.error_code)
+        finally:
+            errors.set_strict_mode(strict)
